@@ -10,6 +10,7 @@
 import PV.Model.SftpClientPut
 import PV.Model.SftpGetLemmas
 import PV.Model.PrefetchSeq
+import PV.Generated.C28
 namespace PV.Props.C29
 open PV PV.SftpClient
 
@@ -160,6 +161,14 @@ theorem putfo_normal_return_implies_destination_equals_source (maxReq nfiles : N
       exact hnone sl hsl ho
   rw [hpend] at d1
   simpa [pdata, resetBad] using d1
+
+/-- **Request ids are allocated atomically** (source fact, read from the AST of `SFTPClient._async_request` on every
+    run): every use of `self.request_number` — the id written into the packet, the registration in `_expecting`, the
+    increment — lies inside the `self._lock` region.  The models above (one `asyncRequest` step = fresh id + packet +
+    registration; `tAlloc`/`allocSync` in the prefetch model) rest on it: without it the prefetch thread and the
+    thread running get()/getfo() can send two READs under one id, and the reader takes another chunk's bytes as its
+    own — a byte-wrong download that returns normally. -/
+theorem request_ids_allocated_under_lock : PV.Generated.C28.idReadUnderLock = true := by decide
 
 /-! ## get / getfo under read faults (no prefetch; the prefetching path is C28's model) -/
 
